@@ -1,6 +1,7 @@
 import LitexModel.Cdc.Num
 import LitexModel.Stream.Basic
 import LitexModel.Stream.Num
+import LitexModel.Cdc.Glue
 open Litex Litex.Driver Litex.Cdc Litex.Stream
 
 def openMachine (args : List String) (hin hout : IO.FS.Stream) : Option (IO Bool) :=
@@ -15,6 +16,11 @@ def openMachine (args : List String) (hin hout : IO.FS.Stream) : Option (IO Bool
   | ["bussync", w, t] => match w.toNat?, t.toNat? with
     | some w, some t => some (serve (numBusSync w t) hin hout)
     | _, _ => none
+  | ["afifo_tok", k, b, wp, wq] => match k.toNat?, wp.toNat?, wq.toNat? with
+    | some k, some wp, some wq => some (serve (numAFifoTok k (b == "1") wp wq) hin hout)
+    | _, _, _ => none
+  | ["monitor", w] => w.toNat?.map fun w => serve (numMonitor w) hin hout
+  | ["axilite", k] => k.toNat?.map fun k => serve (numAxiLite k) hin hout
   | ["bussync1"] => some (serve numBusSync1 hin hout)
   | ["pulsesync"] => some (serve numPulseSync hin hout)
   | "afifo_multi" :: cfg =>
@@ -26,4 +32,16 @@ def openMachine (args : List String) (hin hout : IO.FS.Stream) : Option (IO Bool
     (cfg.mapM parse).map fun c => serve (numAFifoMulti c) hin hout
   | _ => none
 
-def main : IO Unit := mainLoop openMachine (fun _ => none)
+/-- `call cdc_kind <cd_from> <cd_to> <log2 depth | none> <buffered 0/1>`,
+    `call uart_fifo_kind <depth> <sink_cd> <source_cd>`, `call uart_tx <depth> <phy_cd>`, `call uart_rx <depth> <phy_cd>`. -/
+def call (args : List String) : Option String :=
+  match args with
+  | ["cdc_kind", a, b, d, buf] =>
+    let dl : Option (Option Nat) := if d == "none" then some none else d.toNat?.map some
+    dl.map fun dl => (cdcKind a b dl (buf == "1")).show
+  | ["uart_fifo_kind", d, a, b] => d.toNat?.map fun d => (uartFifoKind d a b).show
+  | ["uart_tx", d, p] => d.toNat?.map fun d => (uartTxFifo d p).show
+  | ["uart_rx", d, p] => d.toNat?.map fun d => (uartRxFifo d p).show
+  | _ => none
+
+def main : IO Unit := mainLoop openMachine call
